@@ -1,1 +1,2 @@
 import QP.Base
+import QP.Props.C14
